@@ -7,6 +7,7 @@ import (
 var _ interface {
 	FS
 	MountFS
+	RenameFS
 } = &subFS{}
 
 type subFS struct {
@@ -38,4 +39,16 @@ func (fs *subFS) Mount(p string) (mount FS, subPath string) {
 		return fs.rootFS, p
 	}
 	return fs.rootFS, path.Join(fs.basePath, p)
+}
+
+// Rename implements RenameFS. Without it a Sub FS could not rename, since Rename() can't be forwarded through MountFS alone.
+func (fs *subFS) Rename(oldname, newname string) error {
+	if !ValidPath(oldname) || !ValidPath(newname) {
+		return &LinkError{Op: "rename", Old: oldname, New: newname, Err: ErrInvalid}
+	}
+	err := Rename(fs.rootFS, path.Join(fs.basePath, oldname), path.Join(fs.basePath, newname))
+	if linkErr, ok := err.(*LinkError); ok {
+		err = &LinkError{Op: linkErr.Op, Old: oldname, New: newname, Err: linkErr.Err}
+	}
+	return err
 }
